@@ -96,10 +96,16 @@ impl ValidationReport {
     pub fn process(
         engine: &Engine, config: &Config, initial: bool,
     ) -> Result<(Self, Metrics), RunFailed> {
+        #[cfg(routinator_verif)]
+        crate::verif::run_stage(&config.cache_dir, "start")?;
         let report = Self::new(config);
         let mut run = engine.start(&report, initial)?;
         run.process()?;
+        #[cfg(routinator_verif)]
+        crate::verif::run_stage(&config.cache_dir, "processed")?;
         run.cleanup()?;
+        #[cfg(routinator_verif)]
+        crate::verif::run_stage(&config.cache_dir, "cleaned")?;
         let metrics = run.done();
         Ok((report, metrics))
     }
